@@ -655,6 +655,16 @@ theorem runTasks_ctl (env : Env) (c : Cfg) (ts : List Nat) (s : HState) :
       exact ⟨this.1, this.2⟩
     · exact ih s
 
+/-- `_complete_task` swallows every exception of the awaited task: awaiting never raises -/
+theorem tasksRes_ok (env : Env) (c : Cfg) (ts : List Nat) : tasksRes env c ts = .ok := by
+  induction ts with
+  | nil => rfl
+  | cons i rest ih =>
+    unfold tasksRes
+    split
+    · simp [Gen.completeTaskSwallows, ih]
+    · exact ih
+
 theorem completeH_good (env : Env) (ht : StderrTame env) (c : Cfg) (s : HState) (hg : Good (c, s)) :
     Good (c, (completeH env c s).st) ∧ (completeH env c s).res = .ok := by
   obtain ⟨hq, hst, hw, hs⟩ := hg
@@ -668,13 +678,13 @@ theorem completeH_good (env : Env) (ht : StderrTame env) (c : Cfg) (s : HState) 
     obtain ⟨⟨c1, c2, c3, c4, _⟩, cq⟩ := h2
     rw [if_pos he, if_pos ha, if_pos h.1]
     refine ⟨⟨⟨c1.trans (h.2.2.2.1.trans hq.1), c2.trans (h.2.2.2.2.1.trans hq.2)⟩,
-      c3.trans (h.2.2.2.2.2.trans hst), fun _ => c4.trans h.1, ?_⟩, rfl⟩
+      c3.trans (h.2.2.2.2.2.trans hst), fun _ => c4.trans h.1, ?_⟩, tasksRes_ok env c _⟩
     show QItem.sentinel ∉ (runTasks env c _ _).1.queue
     rw [cq, h.2.1]; simp
   · rw [if_neg he]
     have h := runTasks_ctl env c s.tasks s
     obtain ⟨⟨c1, c2, c3, c4, _⟩, cq⟩ := h
-    refine ⟨⟨⟨c1.trans hq.1, c2.trans hq.2⟩, c3.trans hst, fun h => absurd h he, ?_⟩, rfl⟩
+    refine ⟨⟨⟨c1.trans hq.1, c2.trans hq.2⟩, c3.trans hst, fun h => absurd h he, ?_⟩, tasksRes_ok env c _⟩
     show QItem.sentinel ∉ (runTasks env c _ _).1.queue
     rw [cq]; exact hs
 
